@@ -63,6 +63,7 @@ func (c *Ctx) pathsOf(name string, hooks ...func(*Interp)) []*State {
 	}
 	in := newInterp(c)
 	in.NoLin = true
+	in.Inline = c.isNewHelper
 	for _, h := range hooks {
 		h(in)
 	}
@@ -130,6 +131,7 @@ func (c *Ctx) closureOf(name string) (*ast.FuncLit, *State, *Interp) {
 	}
 	in := newInterp(c)
 	in.NoLin = true
+	in.Inline = c.isNewHelper
 	ps := in.ExecFunc(fd, nil)
 	for _, p := range ps {
 		if len(p.Ret) == 1 && p.Ret[0].Op == "func" {
@@ -382,7 +384,7 @@ func ruleRepMapGet(c *Ctx, r *R) {
 	okNil := false
 	for _, p := range ps {
 		rs := retStrings(p)
-		if strings.Contains(condStrings(p), "!((v.value != nil)") && len(rs) == 2 && rs[0] == "newZero(Type.pair(v.t)#1)" && rs[1] == "false" {
+		if (strings.Contains(condStrings(p), "!((v.value != nil)") || strings.Contains(condStrings(p), "(v.value == nil)")) && len(rs) == 2 && rs[0] == "newZero(Type.pair(v.t)#1)" && rs[1] == "false" {
 			okNil = true
 		}
 	}
@@ -460,10 +462,13 @@ func ruleRepSlice(c *Ctx, r *R) {
 		deleg, nilp := false, false
 		for _, p := range ps {
 			cs := condStrings(p)
-			if strings.Contains(cs, "(v.value != nil)") && !strings.HasPrefix(cs, "!") && anyContains(append(effStrings(p), retStrings(p)...), "Object.") {
+			negDisj := strings.HasPrefix(cs, "!(") && strings.Contains(cs, "(v.value != nil) ||")
+			nonNil := strings.Contains(cs, "(v.value != nil)") && !negDisj
+			isNil := strings.Contains(cs, "(v.value == nil)") || negDisj
+			if nonNil && anyContains(append(effStrings(p), retStrings(p)...), "Object.") {
 				deleg = true
 			}
-			if strings.HasPrefix(cs, "!") && strings.Contains(cs, "v.value != nil") {
+			if isNil && !anyContains(append(effStrings(p), retStrings(p)...), "Object.") {
 				if w.nilRet == "" || len(p.Ret) >= 1 && p.Ret[0].String() == w.nilRet {
 					nilp = true
 				}
@@ -885,7 +890,7 @@ func ruleRepString(c *Ctx, r *R) {
 	}
 	// operators on strings
 	for _, w := range []struct{ fn, op string }{{"Value.opAdd", "+"}, {"Value.opLt", "<"}, {"Value.opLte", "<="}, {"Value.Equals", "=="}} {
-		ps := c.pathsOf(w.fn, func(in *Interp) { in.Inline = func(o types.Object) bool { return o.Name() == "mixType" } })
+		ps := c.pathsOf(w.fn, func(in *Interp) { in.Inline = func(o types.Object) bool { return o.Name() == "mixType" || c.isNewHelper(o) } })
 		good := false
 		for _, p := range ps {
 			for _, rt := range p.Ret {
